@@ -6,6 +6,7 @@ import ast
 
 from ..astutil import inside
 from ..core import delayed_task_of, walk_own
+from ..tutil import elem_of
 from ..events import container_events, name_aug_events, root_name
 from ..cfg import CFG
 from ..core import AnalysisError, const_value
@@ -556,7 +557,7 @@ def _predict(ctx, f):
                     len(rng[2]) == 1:
                 n_t = rng[2][0]
                 ok_s = (ga.get(giv.params[1]) == ("const", "fold")
-                        and ga.get(giv.params[2]) == ("elem", rng)
+                        and ga.get(giv.params[2]) == elem_of(rng)
                         and n_t == ("call", "builtins.len",
                                     (("param", p_models),), ()))
     ctx.check(ok_t and ok_list, "C02b-model-i-scores-slot-i", f,
